@@ -503,6 +503,23 @@ fn sanitize_destination_path(dest: &Path) -> Result<&Path, std::io::Error> {
         })
 }
 
+/// does the (relative) member name lead outside of the directory it gets joined to? (abs. path or too many ..)
+fn leads_outside(name: &Path) -> bool {
+    let mut depth = 0usize;
+    for c in name.components() {
+        match c {
+            std::path::Component::Prefix(_) | std::path::Component::RootDir => return true,
+            std::path::Component::ParentDir => match depth.checked_sub(1) {
+                Some(d) => depth = d,
+                None => return true,
+            },
+            std::path::Component::Normal(_) => depth += 1,
+            std::path::Component::CurDir => {}
+        }
+    }
+    false
+}
+
 /// extract all files from the archive to a target directory
 ///
 /// # Arguments
@@ -535,7 +552,7 @@ pub fn extract_to_dir<RS: Read + Seek + HasLength>(
                 &file
             };
             let target_file = target_dir.join(new_file_name);
-            if !target_file.exists() {
+            if !target_file.exists() || leads_outside(Path::new(new_file_name)) {
                 files_filter.push(file); // need the unmapped name here
             } else {
                 extracted.push(new_file_name.into());
